@@ -231,6 +231,25 @@ func enumChain(cc *canonCtx, iff *ssa.If) (string, map[string]*ssa.If) {
 		}
 		cur = prev
 	}
+	// and the tests that follow on the false edges (the chain is the same whichever test one starts from)
+	cur = iff
+	for i := 0; i < 40 && cur != nil && subject != ""; i++ {
+		nb := cur.Block().Succs[1]
+		ni, ok := nb.Instrs[len(nb.Instrs)-1].(*ssa.If)
+		if !ok || len(nb.Preds) != 1 {
+			break
+		}
+		bo, ok := ni.Cond.(*ssa.BinOp)
+		if !ok || bo.Op != token.EQL {
+			break
+		}
+		k, ok := bo.Y.(*ssa.Const)
+		if !ok || k.Value == nil || k.Value.Kind() != constant.String || f8Norm(cc.of(bo.X)) != subject {
+			break
+		}
+		consts[constant.StringVal(k.Value)] = ni
+		cur = ni
+	}
 	return subject, consts
 }
 
@@ -552,21 +571,51 @@ func f8Match(p f8Item, V map[string]f8Item) (bool, string) {
 	}
 	switch p.Kind {
 	case "enum":
-		for _, v := range V {
+		// all switches of the verifier over the same value must accept a value for the configuration to pass:
+		// the accepted set is their intersection (keys sorted: the verdict must not depend on map order)
+		var keys []string
+		for k, v := range V {
 			if v.Kind == "enum" && v.Fn == p.Fn {
-				have := map[string]bool{}
-				for _, k := range strings.Split(p.Args, ",") {
-					have[k] = true
-				}
-				for _, k := range strings.Split(v.Args, ",") {
-					if k != "" && !have[k] {
-						return false, fmt.Sprintf("the verifier accepts %q which the constructor's switch does not handle", k)
-					}
-				}
-				return true, "every value the verifier accepts is handled by the constructor's switch"
+				keys = append(keys, k)
 			}
 		}
-		return false, "the verifier has no switch over the same value"
+		if len(keys) == 0 {
+			return false, "the verifier has no switch over the same value"
+		}
+		sort.Strings(keys)
+		var accepted map[string]bool
+		for _, k := range keys {
+			set := map[string]bool{}
+			for _, x := range strings.Split(V[k].Args, ",") {
+				if x != "" {
+					set[x] = true
+				}
+			}
+			if accepted == nil {
+				accepted = set
+				continue
+			}
+			for x := range accepted {
+				if !set[x] {
+					delete(accepted, x)
+				}
+			}
+		}
+		have := map[string]bool{}
+		for _, k := range strings.Split(p.Args, ",") {
+			have[k] = true
+		}
+		var acc []string
+		for x := range accepted {
+			acc = append(acc, x)
+		}
+		sort.Strings(acc)
+		for _, x := range acc {
+			if !have[x] {
+				return false, fmt.Sprintf("the verifier accepts %q which the constructor's switch does not handle", x)
+			}
+		}
+		return true, "every value the verifier accepts is handled by the constructor's switch"
 	case "check":
 		if len(p.Unfold) > 0 && p.Complete {
 			var missing []string
